@@ -2,4 +2,4 @@
 Require Import ExtrOcamlBasic.
 From Biscuit Require Import Model.ConvertCases.
 Extraction Language OCaml.
-Extraction "model_convert.ml" cv_failures cvcase_model.
+Extraction "model_convert.ml" cv_failures cvcase_model sv_failures svcase_model.
